@@ -144,11 +144,17 @@ type ctl struct {
 	rng     *rand.Rand
 	style   int
 	path    []int
+	pb      []preempt // preemption-bounded mode: run the same instance on unless one of these says otherwise
+	isPB    bool
+	firstWait time.Duration
 	pos     int
 	last    int
 	br      []byte // per decision: number of options, choice (base 36)
 	partial int    // decisions taken while a live instance was not parked
 }
+
+// preempt: at decision number step, switch to the k-th OTHER parked instance.
+type preempt struct{ step, k int }
 
 const b36 = "0123456789abcdefghijklmnopqrstuvwxyz"
 
@@ -192,6 +198,29 @@ func (r *recorder) rest(t int) {
 
 func (c *ctl) choose(opts []int) int {
 	n := len(opts)
+	if c.isPB {
+		step := c.pos
+		c.pos++
+		for _, p := range c.pb {
+			if p.step == step {
+				var others []int
+				for k, t := range opts {
+					if t != c.last {
+						others = append(others, k)
+					}
+				}
+				if len(others) > 0 {
+					return others[p.k%len(others)]
+				}
+			}
+		}
+		for k, t := range opts {
+			if t == c.last {
+				return k
+			}
+		}
+		return 0
+	}
 	if c.path != nil {
 		k := 0
 		if c.pos < len(c.path) {
@@ -228,7 +257,7 @@ func (c *ctl) loop() {
 	for {
 		deadline := time.Now().Add(c.wait)
 		if first {
-			deadline = time.Now().Add(20 * time.Millisecond)
+			deadline = time.Now().Add(c.firstWait)
 		}
 		for {
 			r.mu.Lock()
